@@ -783,7 +783,7 @@ func c11Concurrent(ctx *Ctx, i int) {
 			filler = append(filler, fmt.Sprintf(">filler-%05d", f))
 		}
 		filler = append(filler, ">pw")
-		for round := 0; round < 40; round++ {
+		for round := 0; round < 150; round++ {
 			if v, _, err := admin.Do(filler...); err != nil || v.IsError() {
 				ctx.Inconclusive("c11 concurrent: SETUSER refused")
 				return
@@ -799,7 +799,7 @@ func c11Concurrent(ctx *Ctx, i int) {
 				av, _, aerr = c.Do("AUTH", "ux", "pw")
 				close(done)
 			}()
-			time.Sleep(time.Duration((round*37)%300) * time.Microsecond)
+			time.Sleep(time.Duration((round*37)%400) * time.Microsecond)
 			dv, _, derr := admin.Do("ACL", "DELUSER", "ux")
 			<-done
 			ctx.Eval(1)
